@@ -49,6 +49,11 @@ func (c *ContractEventCollector) Data() (map[string]int, map[string][]string) {
 	allKeyIDLookup := make(map[string][]string)
 
 	for _, node := range c.nodes {
+		// the node's maps are written by CheckID under the node's own lock while
+		// the node is still running: read them under that lock, and copy the
+		// block lists so that the merged result never aliases a node's slice
+		node.mu.Lock()
+
 		for key, value := range node.keyChecks {
 			v, ok := allKeyChecks[key]
 			if !ok {
@@ -61,7 +66,7 @@ func (c *ContractEventCollector) Data() (map[string]int, map[string][]string) {
 		for key, lookup := range node.keyIDLookup {
 			v, ok := allKeyIDLookup[key]
 			if !ok {
-				allKeyIDLookup[key] = lookup
+				allKeyIDLookup[key] = append([]string(nil), lookup...)
 			} else {
 				for _, ls := range lookup {
 					found := false
@@ -79,6 +84,8 @@ func (c *ContractEventCollector) Data() (map[string]int, map[string][]string) {
 				allKeyIDLookup[key] = v
 			}
 		}
+
+		node.mu.Unlock()
 	}
 
 	return allKeyChecks, allKeyIDLookup
